@@ -42,11 +42,17 @@ var dests = []reflect.Type{
 	reflect.TypeOf([1]*int{}),
 }
 
-// ioVariants are the entry points of the io domain. Variants 0,2,4 run in simple mode, 1,3,5 in reference
-// mode; the reader variant of a mode runs first (see spin detection below).
-var ioVariants = []string{"reader/simple", "reader/ref", "coder/simple", "coder/ref", "marshal/simple", "formatter/ref"}
+// ioVariants are the entry points of the io domain: per mode three stages, the reader-fed decoder first (see
+// spin detection below), then the in-memory decoder, then the Formatter wrapper of that mode (Marshal's
+// default formatter in simple mode, the pooled decoder of Formatter{Simple:false} in reference mode).
+var ioVariants = []string{"reader/simple", "coder/simple", "marshal/simple", "reader/ref", "coder/ref", "formatter/ref"}
 
-const nRiskyVariants = 4 // huge-count inputs run reader and coder only (marshal/formatter wrap the same decoder)
+func stageOf(domain string, cell int) int {
+	if domain != "io" {
+		return 0
+	}
+	return cell % 3
+}
 
 func ioCellName(cell int) string {
 	return dests[cell/len(ioVariants)].String() + " via " + ioVariants[cell%len(ioVariants)]
@@ -161,15 +167,15 @@ func runCell(domain string, cell int, input []byte) outcome {
 		v := cell % len(ioVariants)
 		p := reflect.New(t).Interface()
 		switch v {
-		case 0, 1:
+		case 0, 3:
 			f = func() {
 				dec := hio.NewDecoderFromReader(&capReader{data: input, cap: spinCap(len(input))}).Simple(v == 0)
 				dec.Decode(p)
 				err = dec.Error
 			}
-		case 2, 3:
-			f = func() { err = iocase.Decode(iocase.Cfg{Entry: "coder", Simple: v == 2}, input, p) }
-		case 4:
+		case 1, 4:
+			f = func() { err = iocase.Decode(iocase.Cfg{Entry: "coder", Simple: v == 1}, input, p) }
+		case 2:
 			f = func() { err = iocase.Decode(iocase.Cfg{Entry: "marshal", Simple: true}, input, p) }
 		default:
 			f = func() { err = iocase.Decode(iocase.Cfg{Entry: "formatter"}, input, p) }
@@ -188,12 +194,12 @@ func runCell(domain string, cell int, input []byte) outcome {
 			_, err = core.NewClientCodec().Decode(input, cc)
 		}
 	}
-	msg, stack := iocase.Guard(f)
+	msg, pcs := guard(f)
 	switch {
 	case msg == "C04-SPIN-SENTINEL":
-		return outcome{Kind: "spin", Msg: fmt.Sprintf("the decoder asked the reader for more data more than %d times after io.EOF", spinCap(len(input))), Site: loopSite(stack)}
+		return outcome{Kind: "spin", Msg: fmt.Sprintf("the decoder asked the reader for more data more than %d times after io.EOF", spinCap(len(input))), Site: siteOf(pcs, true)}
 	case msg != "":
-		return outcome{Kind: "panic", Msg: msg, Site: iocase.PanicSite(stack)}
+		return outcome{Kind: "panic", Msg: msg, Site: siteOf(pcs, false)}
 	case err != nil:
 		return outcome{Kind: "error"}
 	}
@@ -222,4 +228,130 @@ func runCellMeasured(domain string, cell int, input []byte) (outcome, uint64) {
 	before := allocExact()
 	o := runCell(domain, cell, input)
 	return o, allocExact() - before
+}
+
+// guard runs f and converts a panic into its message and the program counters of the panicking stack
+// (resolving them to a site is cached: a formatted stack per panic would dominate the run).
+func guard(f func()) (msg string, pcs []uintptr) {
+	defer func() {
+		if r := recover(); r != nil {
+			msg = fmt.Sprint(r)
+			if msg == "" {
+				msg = "(empty panic)"
+			}
+			buf := make([]uintptr, 64)
+			pcs = buf[:runtime.Callers(2, buf)]
+		}
+	}()
+	f()
+	return
+}
+
+var siteCache = map[string]string{}
+
+func siteOf(pcs []uintptr, loop bool) string {
+	key := fmt.Sprint(loop, pcs)
+	if s, ok := siteCache[key]; ok {
+		return s
+	}
+	var frames []frame
+	it := runtime.CallersFrames(pcs)
+	for {
+		f, more := it.Next()
+		frames = append(frames, frame{f.Function, f.File, f.Line})
+		if !more {
+			break
+		}
+	}
+	s := "?"
+	if loop {
+		s = loopSite(frames)
+	} else {
+		for _, f := range frames {
+			if strings.Contains(f.fn, "hprose-golang/v3/") {
+				s = shortFn(f.fn)
+				break
+			}
+		}
+	}
+	siteCache[key] = s
+	return s
+}
+
+// allocSite names the function of the repository that made the largest allocation of one evaluation: the
+// evaluation is repeated with every allocation profiled and the record that grew most is taken. It only
+// labels an over-allocation verdict that has already been reached by exact measurement.
+func allocSite(domain string, cell int, input []byte) string {
+	snap := func() map[[32]uintptr]int64 {
+		runtime.GC()
+		runtime.GC()
+		n, _ := runtime.MemProfile(nil, true)
+		recs := make([]runtime.MemProfileRecord, n+64)
+		n, ok := runtime.MemProfile(recs, true)
+		if !ok {
+			return nil
+		}
+		m := make(map[[32]uintptr]int64, n)
+		for _, r := range recs[:n] {
+			m[r.Stack0] += r.AllocBytes
+		}
+		return m
+	}
+	before := snap()
+	old := runtime.MemProfileRate
+	runtime.MemProfileRate = 1
+	runCell(domain, cell, input)
+	runtime.MemProfileRate = old
+	after := snap()
+	var best [32]uintptr
+	var bestN int64
+	for k, v := range after {
+		if d := v - before[k]; d > bestN {
+			best, bestN = k, d
+		}
+	}
+	n := 0
+	for n < len(best) && best[n] != 0 {
+		n++
+	}
+	return siteOf(best[:n], false)
+}
+
+// hangSite is called by the CPU watchdog when an in-memory evaluation has used up its budget: it samples the
+// stack of the main goroutine a few times, keeps the frames common to all samples (counted from the
+// outermost) and names the innermost of those that sits in a counted loop: the loop that has been live all
+// the time. It only labels the verdict.
+func hangSite() string {
+	var common []frame
+	for k := 0; k < 6; k++ {
+		buf := make([]byte, 1<<20)
+		buf = buf[:runtime.Stack(buf, true)]
+		s := string(buf)
+		i := strings.Index(s, "goroutine 1 [")
+		if i < 0 {
+			return "?"
+		}
+		s = s[i:]
+		if j := strings.Index(s, "\n\n"); j >= 0 {
+			s = s[:j]
+		}
+		fr := parseStack(s)
+		for a, b := 0, len(fr)-1; a < b; a, b = a+1, b-1 { // outermost first
+			fr[a], fr[b] = fr[b], fr[a]
+		}
+		if k == 0 {
+			common = fr
+		} else {
+			n := 0
+			for n < len(common) && n < len(fr) && common[n].fn == fr[n].fn && common[n].line == fr[n].line {
+				n++
+			}
+			common = common[:n]
+		}
+		time.Sleep(3 * time.Millisecond)
+	}
+	for a, b := 0, len(common)-1; a < b; a, b = a+1, b-1 { // innermost first again
+		common[a], common[b] = common[b], common[a]
+	}
+	return loopSite(common)
 }
